@@ -103,6 +103,25 @@ def r1(chk, repo, d):
                     raise AnalysisError(f"R06.1: cannot fold {dun} on "
                                         f"{fmt!r} with {an}: {e}")
                 is_iadd = isinstance(r, Obj) and r.ci is ia
+                # ... wherever the variable lives: the same with an address
+                # that involves every register
+                m2 = d.memory("m", fmt)
+                for attr in state:
+                    m2.fields.setdefault(attr, True)
+                m2.fields["address"] = Obj(m2.fields["address"].ci, dict(
+                    m2.fields["address"].fields,
+                    contains=("hook", lambda no: True)))
+                try:
+                    r2 = d.ev.call(d.ev._dunder(m2, dun), [mk()])
+                except Raised as e:
+                    r2 = ("raised", e.what)
+                except Unknown as e:
+                    raise AnalysisError(f"R06.1: cannot fold {dun} on "
+                                        f"{fmt!r} with {an}: {e}")
+                if (isinstance(r2, Obj) and r2.ci is ia) != is_iadd:
+                    fails.append(f"fmt {fmt!r} {dun} {an}: the lowering "
+                                 f"depends on the registers of the address "
+                                 f"expression")
                 if atomic and not is_iadd:
                     fails.append(f"fmt {fmt!r} {dun} {an}: not an atomic "
                                  f"add ({r!r}) - Python falls back to "
